@@ -45,7 +45,35 @@ Definition kw_call    : bytes := [67;65;76;76].
 Definition write_kws : list bytes :=
   [kw_create; kw_merge; kw_set; kw_remove; kw_delete; kw_foreach; kw_drop; kw_rebuild].
 
-Definition is_write_kw (t : bytes) : bool := existsb (bytes_eqb t) write_kws.
+Fixpoint starts_with (p s : bytes) : bool :=
+  match p, s with
+  | [], _ => true
+  | a :: p', b :: s' => (a =? b) && starts_with p' s'
+  | _ :: _, [] => false
+  end.
+
+Definition kw_detach : bytes := [68;69;84;65;67;72].
+
+(* The grammar is scannerless and its keywords have no word boundary: `DELETEn` is DELETE n,
+   `DETACHDELETE n` is DETACH DELETE n.  So a token counts when it *begins* with a write / DDL
+   keyword (in particular when it is one). *)
+Definition is_write_kw (t : bytes) : bool :=
+  existsb (fun k => starts_with k t) (kw_detach :: write_kws).
+
+(* ... unless the position is one where the grammar reads a name or an expression, so that the
+   token is a variable / alias / procedure / index name (`RETURN delete`, `WHERE set > 1`,
+   `AS created`, `(settings)`): directly after one of these keywords or punctuation bytes *)
+Definition expr_prev_kws : list bytes :=
+  [ [82;69;84;85;82;78] (* RETURN *); [87;73;84;72] (* WITH *); [87;72;69;82;69] (* WHERE *);
+    [65;78;68] (* AND *); [79;82] (* OR *); [88;79;82] (* XOR *); [78;79;84] (* NOT *);
+    [73;78] (* IN *); [65;83] (* AS *); [66;89] (* BY *); [68;73;83;84;73;78;67;84] (* DISTINCT *);
+    [85;78;87;73;78;68] (* UNWIND *); [87;72;69;78] (* WHEN *); [84;72;69;78] (* THEN *);
+    [69;76;83;69] (* ELSE *); [67;65;83;69] (* CASE *); [67;79;78;84;65;73;78;83] (* CONTAINS *);
+    [89;73;69;76;68] (* YIELD *); [67;65;76;76] (* CALL *); [77;65;84;67;72] (* MATCH *);
+    [73;78;68;69;88] (* INDEX *); [67;79;78;83;84;82;65;73;78;84] (* CONSTRAINT *);
+    [65;83;83;69;82;84] (* ASSERT *); [82;69;81;85;73;82;69] (* REQUIRE *);
+    [44]; [40]; [91]; [61]; [43]; [45]; [42]; [47]; [37]; [60]; [62]; [94] ].
+Definition expr_prev (prev : bytes) : bool := existsb (bytes_eqb prev) expr_prev_kws.
 
 (* a name, not a keyword: property / label / parameter position, or a map key *)
 Definition name_prefix (prev : bytes) : bool :=
@@ -56,7 +84,8 @@ Definition next_is_colon (r : list bytes) : bool :=
 Fixpoint has_write (prev : bytes) (ts : list bytes) : bool :=
   match ts with
   | [] => false
-  | t :: r => (is_write_kw t && negb (name_prefix prev) && negb (next_is_colon r)) || has_write t r
+  | t :: r => (is_write_kw t && negb (name_prefix prev) && negb (expr_prev prev) && negb (next_is_colon r))
+              || has_write t r
   end.
 
 (* EXPLAIN never executes; a CALL { ... } subquery stays on the read path (writes inside it are
@@ -64,19 +93,13 @@ Fixpoint has_write (prev : bytes) (ts : list bytes) : bool :=
 Definition is_write_tok (ts : list bytes) : bool :=
   match ts with
   | t :: r =>
-      if bytes_eqb t kw_explain then false
+      if starts_with kw_explain t then false
       else if bytes_eqb t kw_call && match r with u :: _ => bytes_eqb u [123] | [] => false end then false
       else has_write [] ts
   | [] => false
   end.
 
 (* ---------- the old substring guesses (kept as fallback), over ASCII ---------- *)
-Fixpoint starts_with (p s : bytes) : bool :=
-  match p, s with
-  | [], _ => true
-  | a :: p', b :: s' => (a =? b) && starts_with p' s'
-  | _ :: _, [] => false
-  end.
 Fixpoint contains (p s : bytes) : bool :=
   starts_with p s || match s with [] => false | _ :: s' => contains p s' end.
 Definition ends_with (p s : bytes) : bool := starts_with (rev p) (rev s).
